@@ -97,7 +97,12 @@ def run_case(cs, ctx):
         # (2) LP mode
         opts = sp.make_opts(rng, spec, twopl=twopl, stab=(twopl and rng.random() < 0.5))
         ref = en.reference(spec, opts)
-        ex = en.run_lp(spec, opts, ctx.workdir, rng, inject=True, text=text)
+        decoy_argv = None
+        if rng.random() < 0.1:
+            d = sp.make_opts(rng, spec, twopl=twopl)
+            decoy_argv = ['-na', str(na)] + sp.opts_to_argv(d, rng)
+            ctx.cnt('runs_with_a_second_live_solver_object')
+        ex = en.run_lp(spec, opts, ctx.workdir, rng, inject=True, text=text, decoy_argv=decoy_argv)
         ctx.cnt('solver_runs')
         cnt = {}
         findings, facts = en.judge_lp(ex, ref, counters=cnt)
